@@ -5,6 +5,7 @@ package main
 import (
 	"bytes"
 	"crypto/sha1"
+	"go/types"
 	"context"
 	"fmt"
 	"os"
@@ -90,6 +91,16 @@ func (s *Script) define(prefix, sort, body string) string {
 	}
 	name := s.fresh(prefix)
 	s.declared[name] = sort
+	if strings.Contains(body, "(ite ") && sort != "Bool" {
+		// terms with conditionals are named by a constant and an equation rather than a macro:
+		// macros are expanded inside quantifier patterns, and patterns may not contain ite
+		s.items = append(s.items, scriptItem{kind: "decl", name: name, sort: sort})
+		s.items = append(s.items, scriptItem{kind: "assume", body: "(= " + name + " " + body + ")", note: "", scope: 0})
+		if s.defs == nil {
+			s.defs = map[string]string{}
+		}
+		return name
+	}
 	s.items = append(s.items, scriptItem{kind: "def", name: name, sort: sort, body: body})
 	if s.defs == nil {
 		s.defs = map[string]string{}
@@ -144,11 +155,24 @@ func add(a, b string) string {
 
 // elemIdx: absolute position of element i of a slice with offset off. The uninterpreted idx
 // (axiom idx(o,i) = o+i) keeps arithmetic out of quantifier patterns.
-func elemIdx(off, i string) string {
+func elemIdx(off, i string, refElems bool) string {
+	if !refElems {
+		return add(off, i) // bytes, numbers, strings: plain arithmetic (sub-slicing composes)
+	}
 	if off == "0" {
 		return i
 	}
 	return app("idx", off, i)
+}
+
+// refElem: slices whose elements are references (pointers, maps, channels, ...) are indexed
+// through idx so that quantified invariants over them have arithmetic-free patterns.
+func refElem(t types.Type) bool {
+	switch t.Underlying().(type) {
+	case *types.Pointer, *types.Map, *types.Chan, *types.Interface, *types.Signature:
+		return true
+	}
+	return false
 }
 
 func (s *Script) assume(fact, note string) {
